@@ -1,7 +1,7 @@
 (* Props/C08.v — a faulted worker is detected, bypassed and replaced; the accept thread never panics or spins.
    ONLY statements, each closed by `exact <lemma>`, with Print Assumptions. *)
 From Coq Require Import List ZArith NArith Bool.
-From AN Require Import Model.Srv Proofs.SrvInv Proofs.SrvFault.
+From AN Require Import Model.Srv Proofs.SrvInv Proofs.SrvFault Proofs.SrvRotation.
 Import ListNotations.
 
 (* For EVERY script — any number of worker deaths at any point (idle, partially loaded, saturated, inside the
@@ -15,8 +15,64 @@ Theorem C08_no_panic_no_spin : forall (L : Z) W kinds os,
   err (run L (init W kinds) os) = None.
 Proof. exact no_panic_no_spin. Qed.
 
+(* Detection: a send attempt at a dead worker emits exactly one WorkerFaulted notice carrying that worker's
+   index (the index the server restarts), removes exactly its handle from the rotation, and hands the connection
+   back for another attempt — or reports that no handle is left. *)
+Theorem C08_detect : forall (L : Z) st c ys g w,
+  nth_error (handles st) (next st) = Some g -> nth_error (ws st) g = Some w -> w_open w = false ->
+  (w_idx w < 512)%N ->
+  exists st' r, send_connection L st c ys = (st', ys, r) /\
+    handles st' = swap_remove (next st) (handles st) /\
+    (exists post, trace st' = post ++ EvFaulted (w_idx w) :: trace st /\
+                  forall e, In e post -> match e with EvFaulted _ | EvDispatch _ _ _ _ _ => False | _ => True end) /\
+    match r with SOk => handles st' = [] | SRetry c' => c' = c /\ handles st' <> [] end.
+Proof. exact send_connection_detects. Qed.
+
+(* Re-routing: whatever has happened to the workers, one accept_one call (which never fails, by
+   C08_no_panic_no_spin) ends by delivering the connection to a worker whose queue was open when it was sent, or
+   by dropping it because the last handle has just been removed. *)
+Theorem C08_reroute : forall (L : Z) fuel st c ys st' ys',
+  accept_one L fuel st c ys = (st', ys') -> err st = None -> err st' = None ->
+  delivered c st st' \/ dropped_no_worker c st st'.
+Proof. exact accept_one_outcome. Qed.
+
+(* Bypass: in the log of ANY run (newest first), no dispatch to generation g is newer than g's death. *)
+Theorem C08_bypass : forall (L : Z) W kinds os pre c tok g idx n post,
+  trace (run L (init W kinds) os) = pre ++ EvDispatch c tok g idx n :: post -> ~ In (EvKilled g) post.
+Proof. intros L W kinds os. exact (proj2 (proj2 (reachable_rk L W kinds os))). Qed.
+
+(* Only dead workers leave the rotation: in ANY reachable state every live worker generation is in the rotation
+   or its handle is waiting in the waker queue. *)
+Theorem C08_live_in_rotation : forall (L : Z) W kinds os g w,
+  let st := run L (init W kinds) os in
+  nth_error (ws st) g = Some w -> w_open w = true -> In g (handles st) \/ In (IWorker g) (wq st).
+Proof.
+  intros L W kinds os g w st Hg Ho.
+  exact (proj1 (reachable_rk L W kinds os) g (ex_intro _ w (conj Hg Ho))).
+Qed.
+
+(* Replacement: the server answers WorkerFaulted(idx) by starting a worker with the same index and sending its
+   handle through the waker queue ... *)
+Theorem C08_respawn_same_index : forall (L : Z) st idx,
+  let st' := env_step L st (Respawn idx) in
+  ws st' = ws st ++ [{| w_idx := idx; w_open := true; w_queue := []; w_picked := []; w_cnt := 1 |}] /\
+  wq st' = wq st ++ [IWorker (length (ws st))] /\ wpend st' = true.
+Proof. intros L st idx. cbn. repeat split. Qed.
+
+(* ... and once the accept loop has processed its waker queue (and has not been told to stop) the queue is
+   empty and every live generation — survivors and replacements alike — is in the rotation. *)
+Theorem C08_rejoin : forall (L : Z) W kinds os ys,
+  1 <= W <= 512 -> forallb wf_op (os ++ [HandleWaker ys]) = true ->
+  forallb (tok_ok (length kinds)) (os ++ [HandleWaker ys]) = true ->
+  let st := run L (init W kinds) os in
+  let st' := run L (init W kinds) (os ++ [HandleWaker ys]) in
+  live st = true -> stopped st' = false ->
+  wq st' = [] /\ forall g w, nth_error (ws st') g = Some w -> w_open w = true -> In g (handles st').
+Proof. exact rejoined. Qed.
+
 (* non-vacuity: the double-fault history that defeated the pinned tree (D2): worker 1 is saturated with its
-   release notice queued, both workers die, the notice arrives after the removal; one replacement joins *)
+   release notice queued, both workers die, the late notice is processed; with a single replacement service
+   resumes: connection 4 is served by generation 2, connection 3 was dropped when no handle was left *)
 Example C08_example :
   let os := [E (Connect 0 1); E (Connect 0 2); E (Connect 0 3); Turn [];
              E (Pick 1); E (Kill 0); E (Kill 1); E (Finish 1 2);
@@ -25,7 +81,13 @@ Example C08_example :
   forallb wf_op os = true /\ forallb (tok_ok 1) os = true /\
   let st := run 1 (init 2 [false]) os in
   err st = None /\ handles st = [2] /\ map (fun w => map c_id (w_queue w)) (ws st) = [[]; []; [4%N]] /\
-  In (EvDropNoWorker 3) (trace st).
-Proof. vm_compute. repeat split. auto 20. Qed.
+  In (EvDropNoWorker 3) (trace st) /\ In (EvFaulted 0) (trace st) /\ In (EvFaulted 1) (trace st).
+Proof. vm_compute. repeat split; auto 30. Qed.
 
 Print Assumptions C08_no_panic_no_spin.
+Print Assumptions C08_detect.
+Print Assumptions C08_reroute.
+Print Assumptions C08_bypass.
+Print Assumptions C08_live_in_rotation.
+Print Assumptions C08_respawn_same_index.
+Print Assumptions C08_rejoin.
